@@ -181,6 +181,7 @@ func main() {
 	debug.SetGCPercent(-1)
 	debug.SetMaxStack(256 << 20)
 	simrt.StartWatchdog(60 * time.Second)
+	exitWhenOrphaned()
 
 	// fresh-process children (one run, library state as initialised) must not execute library
 	// code before the run: they use uniform kind weights, and since they generate their own
@@ -713,4 +714,18 @@ func numGC() uint32 {
 	var ms runtime.MemStats
 	runtime.ReadMemStats(&ms)
 	return ms.NumGC
+}
+
+// exitWhenOrphaned ends this process when its parent is gone (a worker killed by its parent's
+// timeout once left fresh-process children behind that kept running for hours).
+func exitWhenOrphaned() {
+	ppid := os.Getppid()
+	go func() {
+		for {
+			time.Sleep(2 * time.Second)
+			if os.Getppid() != ppid {
+				os.Exit(3)
+			}
+		}
+	}()
 }
